@@ -4,7 +4,9 @@ import (
 	"encoding/json"
 	"fmt"
 	"os"
+	"os/exec"
 	"path/filepath"
+	"regexp"
 	"runtime"
 	"sort"
 	"strings"
@@ -196,6 +198,26 @@ func RunCheck(w *World, o CheckOpts) int {
 		os.WriteFile(path, []byte("function left the verifier's subset: "+rj+"\n"), 0o644)
 		fmt.Printf("VIOLATION property=%s replay=%s obligation=%s:cover:subset (%s) no-failing-input-found\n", o.Prop, path, name, rj)
 	}
+	// bounded stand-ins: executed, labelled bounded, never counted under discharged
+	var boundedOut []map[string]string
+	for _, bt := range p.Tests {
+		if o.Only != "" {
+			break
+		}
+		ok, out := runBoundedTest(o.VerifDir, bt)
+		rec := map[string]string{"name": bt.Name, "bound": bt.Bound, "result": "pass", "kind": "bounded stand-in (exhaustive execution of the real functions over the stated domain), NOT a proof"}
+		if m := regexp.MustCompile(`GOVC-BOUNDED cases=(\d+)`).FindStringSubmatch(out); m != nil {
+			rec["cases_executed"] = m[1]
+		}
+		if !ok {
+			rec["result"] = "FAIL"
+			violations++
+			path := filepath.Join(replayDir, sanitizeName("bounded_"+bt.Name)+".txt")
+			os.WriteFile(path, []byte("bounded stand-in "+bt.Name+" failed\n"+out), 0o644)
+			fmt.Printf("VIOLATION property=%s replay=%s obligation=bounded:%s (bounded stand-in failed on the real code)\n", o.Prop, path, bt.Name)
+		}
+		boundedOut = append(boundedOut, rec)
+	}
 	// baseline: contract-level obligations and functions that existed when the baseline was recorded must still exist
 	missing := checkBaseline(filepath.Join(o.VerifDir, "baseline", o.Prop+".txt"), outs)
 	for _, m := range missing {
@@ -350,4 +372,22 @@ func WriteBaseline(w *World, prop, verifDir string) error {
 	sort.Strings(lines)
 	os.MkdirAll(filepath.Join(verifDir, "baseline"), 0o755)
 	return os.WriteFile(filepath.Join(verifDir, "baseline", prop+".txt"), []byte("# stable obligation names; regenerate deliberately with: govc baseline "+prop+"\n"+strings.Join(lines, "\n")+"\n"), 0o644)
+}
+
+// runBoundedTest runs one bounded stand-in in its package through an overlay (nothing is written into the repository).
+func runBoundedTest(verifDir string, bt BoundedTest) (bool, string) {
+	tmp, err := os.MkdirTemp("", "govc-bounded")
+	if err != nil {
+		return false, err.Error()
+	}
+	defer os.RemoveAll(tmp)
+	ov := map[string]map[string]string{"Replace": {filepath.Join("/repo", bt.PkgDir, "zz_govc_bounded_test.go"): filepath.Join(verifDir, bt.File)}}
+	b, _ := json.Marshal(ov)
+	ovf := filepath.Join(tmp, "ov.json")
+	os.WriteFile(ovf, b, 0o644)
+	cmd := exec.Command("bash", "-c", fmt.Sprintf("cd /repo/%s && go test -overlay %s -vet=off -count=1 -v -timeout 600s -run '^%s$' .", bt.PkgDir, ovf, bt.Run))
+	cmd.Env = append(os.Environ(), "GOFLAGS=-mod=mod", "GOPROXY=off", "GOSUMDB=off", "GOTOOLCHAIN=local")
+	out, _ := cmd.CombinedOutput()
+	s := string(out)
+	return strings.Contains(s, "--- PASS: "+bt.Run) && !strings.Contains(s, "--- FAIL"), trim(s, 4000)
 }
